@@ -388,7 +388,6 @@ func (s *store) projectChan(c string) map[string]any {
 	return out
 }
 
-
 // retention returns the durable retention state of a channel.
 func (s *store) retention(c string) map[string]any {
 	none := map[string]any{"has": false, "local": 0, "phys": 0, "rmax": 0}
